@@ -34,6 +34,8 @@ type scenario struct {
 	// expectations
 	wantDrops bool // the first generation is expected to be lost involuntarily
 	poke      bool // while the scripted failures last, call Open again and again (must be ErrAlreadyOpen, must not disturb the loop)
+	tightFirst bool // the first generation lives only milliseconds: the gap to the first re-dial is (nearly) the first wait, so its upper bound applies too
+	shrinkT5  time.Duration // >0: UpdateConfigOptions(WithT5(shrinkT5)) after the second failed dial (live shrink during backoff)
 	body      int  // >0: the driver's data primaries carry an ASCII body of this many characters
 	quiet     bool // send nothing until the scripted generations are gone (a link that shows life is never dropped by linktest)
 }
@@ -108,8 +110,15 @@ func runScenario(c *vh.Ctx, sc scenario) {
 	deadline := time.Now().Add(recoverWindow)
 	recovered := false
 	pokes := 0
+	shrinkDone := false
 	for time.Now().Before(deadline) {
 		inScript := !(r.Dials() > len(sc.plans) && scriptedGone(r, len(sc.plans)))
+		if sc.shrinkT5 > 0 && !shrinkDone && r.Dials() >= 3 {
+			shrinkDone = true
+			if err := r.Conn.UpdateConfigOptions(hsms.WithT5(sc.shrinkT5)); err != nil {
+				c.Fail("C11: UpdateConfigOptions(WithT5) failed", desc()+": "+err.Error())
+			}
+		}
 		if sc.poke && inScript && r.Dials() >= 2 {
 			// a reconnect loop is in flight (at least one re-dial has been refused): an "ensure open" call
 			if o := r.Open(pokes%2 == 0, 50*time.Millisecond); o.Class != "already" {
@@ -294,25 +303,44 @@ func checkGaps(c *vh.Ctx, r *lc.Rig, sc scenario, evs []lc.Ev) {
 	k := 0 // index of the sleep that precedes the NEXT dial
 	var gaps []string
 	var lo []string
+	prevGap := time.Duration(-1)
+	shrunk := false
 	for i := 0; i+1 < len(dials); i++ {
 		failed := dials[i].Res == "refused" || dials[i].Res == "hang"
 		if i == 0 || !failed {
 			k = 0
+			prevGap = -1
+		}
+		if sc.shrinkT5 > 0 && i >= 2 {
+			shrunk = true // from here on the live T5 is the smaller one: only the upper bound is judged
 		}
 		gap := dials[i+1].T.Sub(dials[i].T)
 		want := time.Duration(sleeps[k])
-		if gap < want {
+		ceil := sc.cfg.T5 // the largest T5 in effect during the scenario
+		if !shrunk && gap < want {
 			c.Fail("C11: re-dial earlier than the backoff delay", fmt.Sprintf("%s dial %d->%d sleep_index=%d gap_ns=%d want_ns>=%d", sc.tag, i, i+1, k, gap, want))
 		}
-		if failed && gap > want+upSlack+lc.HangCap {
-			c.Fail("C11: re-dial later than the backoff delay plus slack", fmt.Sprintf("%s dial %d->%d gap_ms=%d", sc.tag, i, i+1, gap.Milliseconds()))
+		tight := failed || (sc.tightFirst && i == 0) || (sc.tightFirst && !failed)
+		if tight && !shrunk && gap > want+upSlack+lc.HangCap {
+			c.Fail("C11: re-dial later than the backoff delay plus slack", fmt.Sprintf("%s dial %d->%d sleep_index=%d gap_ms=%d want_ms=%d", sc.tag, i, i+1, k, gap.Milliseconds(), want.Milliseconds()))
 		}
-		up := "0" // 1: the upper bound applies too (the gap contains nothing but the sleep and a failed dial)
-		if failed {
+		if tight && gap > ceil+upSlack+lc.HangCap {
+			c.Fail("C11: separation between connect attempts exceeds T5 (plus slack)", fmt.Sprintf("%s dial %d->%d gap_ms=%d T5_ms=%d", sc.tag, i, i+1, gap.Milliseconds(), ceil.Milliseconds()))
+		}
+		if tight && prevGap >= 0 && sc.shrinkT5 == 0 && gap+upSlack < prevGap {
+			c.Fail("C11: separation between connect attempts decreased (beyond slack)", fmt.Sprintf("%s dial %d->%d gap_ms=%d previous_ms=%d", sc.tag, i, i+1, gap.Milliseconds(), prevGap.Milliseconds()))
+		}
+		if tight {
+			prevGap = gap
+		}
+		up := "0" // 1: the upper bound applies too (the gap contains nothing but the sleep and a failed / short-lived dial)
+		if tight && !shrunk {
 			up = "1"
 		}
-		gaps = append(gaps, fmt.Sprint(int64(gap))+" "+up)
-		lo = append(lo, fmt.Sprint(k))
+		if !shrunk {
+			gaps = append(gaps, fmt.Sprint(int64(gap))+" "+up)
+			lo = append(lo, fmt.Sprint(k))
+		}
 		if k+1 < len(sleeps) {
 			k++
 		}
@@ -494,14 +522,19 @@ func e2ePass(c *vh.Ctx) {
 		mult     float64
 	}
 	bos := []bo{{3 * time.Millisecond, 20 * time.Millisecond, 2}, {10 * time.Millisecond, 10 * time.Millisecond, 1},
-		{2 * time.Millisecond, 50 * time.Millisecond, 1.5}, {30 * time.Millisecond, 10 * time.Millisecond, 2}, {time.Millisecond, 8 * time.Millisecond, 3}}
+		{2 * time.Millisecond, 50 * time.Millisecond, 1.5}, {30 * time.Millisecond, 10 * time.Millisecond, 2}, {time.Millisecond, 8 * time.Millisecond, 3},
+		// initial ABOVE T5 by more than the slack (nothing validates initial <= T5): every wait is T5
+		{4 * time.Second, 20 * time.Millisecond, 2}, {4 * time.Second, 20 * time.Millisecond, 1},
+		// initial = T5 and just below it; a tiny T5 under the DEFAULT initial (100 ms)
+		{20 * time.Millisecond, 20 * time.Millisecond, 2}, {19 * time.Millisecond, 20 * time.Millisecond, 2}, {19 * time.Millisecond, 20 * time.Millisecond, 1},
+		{100 * time.Millisecond, 5 * time.Millisecond, 2}}
 	ks := []int{1, 2, 3, 5, 8}
 	if thorough {
 		ks = []int{1, 2, 3, 4, 5, 6, 8, 12}
 	}
 	for bi, b := range bos {
 		for _, k := range ks {
-			if !thorough && (bi+k)%2 == 1 {
+			if !thorough && (bi+k)%2 == 1 && !(bi >= 5 && (k == 1 || k == 3)) {
 				continue
 			}
 			cfg := e2eCfg()
@@ -515,7 +548,7 @@ func e2ePass(c *vh.Ctx) {
 				}
 				plans = append(plans, f)
 			}
-			runScenario(c, scenario{tag: fmt.Sprintf("run:k=%d/cfg%d", k, bi), active: true, cfg: cfg, plans: plans, wantDrops: true})
+			runScenario(c, scenario{tag: fmt.Sprintf("run:k=%d/cfg%d", k, bi), active: true, cfg: cfg, plans: plans, wantDrops: true, tightFirst: true})
 		}
 	}
 	// cold start: the very first dial is refused under OpenBackground (loop without counting)
@@ -526,6 +559,23 @@ func e2ePass(c *vh.Ctx) {
 			plans = append(plans, lc.Refused())
 		}
 		runScenario(c, scenario{tag: fmt.Sprintf("cold:k=%d", k), active: true, cfg: cfg, plans: plans, wantDrops: true})
+	}
+	// cold start with initial far above T5: the very first background wait is T5, not the raw initial
+	{
+		cfg := e2eCfg()
+		cfg.BackoffInit, cfg.T5, cfg.BackoffMult = 4*time.Second, 20*time.Millisecond, 2
+		runScenario(c, scenario{tag: "cold:init>T5", active: true, cfg: cfg, plans: []lc.Plan{lc.Refused(), lc.Refused()}, wantDrops: true, tightFirst: true})
+	}
+	// live T5 shrink during backoff: UpdateConfigOptions(WithT5(8 ms)) while the loop is retrying under
+	// T5 = 40 ms with initial 4 s: every later separation is bounded by the (larger) T5 in effect
+	{
+		cfg := e2eCfg()
+		cfg.BackoffInit, cfg.T5, cfg.BackoffMult = 4*time.Second, 40*time.Millisecond, 2
+		plans := []lc.Plan{mk(func(p *lc.Plan) { p.DropAfter = 3 * time.Millisecond })}
+		for i := 0; i < 6; i++ {
+			plans = append(plans, lc.Refused())
+		}
+		runScenario(c, scenario{tag: "run:live-T5-shrink", active: true, cfg: cfg, plans: plans, wantDrops: true, tightFirst: true, shrinkT5: 8 * time.Millisecond})
 	}
 	// --- E: Close during the backoff sleep: returns promptly and nothing dials afterwards ---
 	for _, active := range []bool{true} {
